@@ -33,6 +33,7 @@ type Env struct {
 	frame *frame // the activation whose variables the clause may name (loop invariants)
 	iterHeap string // visited-set heap of the map iterator of the enclosing loop
 	noQuant bool
+	axiomUse bool // translating a `use forall ... :: axiom(...)`: axiom names denote their bodies
 	guards []string // antecedents enclosing the current position (for registered forall facts)
 }
 
@@ -779,6 +780,31 @@ func (e *Env) call(x *CE, pos bool) CV {
 		return g.cv("(select "+a.S+" "+i.S+")", parts[2], nil)
 	case "AInt", "ABool", "AStr", "ABytes", "AFlt", "ARef":
 		return e.anyCtor(name, x, pos)
+	}
+	if ax, ok := g.Specs.Axioms[name]; ok && e.axiomUse {
+		// an axiom named inside "use forall ... :: axiom(args)": its body at those arguments
+		if len(args) != len(ax.Params) {
+			fail("%s: axiom %s takes %d arguments", x, name, len(ax.Params))
+		}
+		vars := map[string]CV{}
+		for i, p := range ax.Params {
+			v := argv(i)
+			ty, so := g.resolveType(p.Type)
+			if v.So != so {
+				v = e.coerce(v, so)
+			}
+			if ty != nil {
+				v.Ty = ty
+			}
+			vars[p.Name] = v
+		}
+		if !ax.Cex {
+			g.trustedUse["axiom:"+name] = true
+		}
+		n := e.with(vars)
+		n.cells = nil
+		n.depth = e.depth + 1
+		return n.tr(ax.Body, pos)
 	}
 	if d, ok := g.Specs.Defines[name]; ok {
 		if e.depth > 40 {
